@@ -523,6 +523,37 @@ func (g *gen) stNamedFuncValue(t *Node) *Node {
 	if g.chance(25) {
 		return &Node{K: "assign", S: "=", A: []*Node{t, {K: "call", S: "(" + f.name + ")", A: args}}}
 	}
+	if f.recv == "" && g.chance(40) && g.on(kFuncField) {
+		// ... kept in a field of a struct and called through it: w := TFk{n: 1, f: f0}; t = w.f(args)
+		ft := "func("
+		for i, p := range f.params {
+			if i > 0 {
+				ft += ", "
+			}
+			ft += p.Type
+		}
+		ft += ") int"
+		sn := ""
+		for _, sd := range g.pr.Structs {
+			if len(sd.Fields) == 2 && sd.Fields[1].Name == "f" && sd.Fields[1].Type == ft {
+				sn = sd.Name
+			}
+		}
+		if sn == "" {
+			sn = fmt.Sprintf("TF%d", len(g.pr.Structs))
+			g.pr.Structs = append(g.pr.Structs, StructDef{Name: sn, Fields: []Field{{Name: "n", Type: "int"}, {Name: "f", Type: ft}}})
+		}
+		g.mark("func-field-call")
+		w := g.newName(false)
+		lit := &Node{K: "stlit", T: sn, A: []*Node{{S: "n", A: []*Node{ilit(1)}}, {S: "f", A: []*Node{vr(f.name)}}}}
+		if g.chance(40) {
+			lit.S = "&"
+		}
+		return &Node{K: "seq", B: []*Node{
+			{K: "define", S: w, A: []*Node{lit}},
+			{K: "assign", S: "=", A: []*Node{t, {K: "call", S: w + ".f", A: args}}},
+		}}
+	}
 	name := g.newName(false)
 	return &Node{K: "seq", B: []*Node{
 		{K: "define", S: name, A: []*Node{vr(f.name)}},
